@@ -173,7 +173,7 @@ fn fnv(bs: &[u8]) -> u64 {
     let mut h: u64 = 0xcbf2_9ce4_8422_2325;
     for b in bs {
         h ^= *b as u64;
-        h = h.wrapping_mul(0x1000_0000_01b3);
+        h = h.wrapping_mul(0x0100_0000_01b3);
     }
     h
 }
@@ -211,7 +211,7 @@ fn compile(script: &[Act]) -> String {
             Act::Copy { lim: Some(n), dst, .. } => format!("head -c {n}{}", redir(*dst)),
             Act::Emit { dst: 'n', .. } => ":".to_string(),
             Act::Emit { dst, byte, n } => {
-                if *n <= 64 && byte.is_ascii_alphanumeric() {
+                if *n <= 60000 && *n > 0 && byte.is_ascii_alphanumeric() {
                     format!("printf %s {}{}", String::from_utf8(vec![*byte; *n as usize]).unwrap(), redir(*dst))
                 } else if *n == 0 {
                     ":".to_string()
@@ -240,6 +240,12 @@ static PROGRESS: AtomicU64 = AtomicU64::new(0);
 static DEADLOCK: AtomicBool = AtomicBool::new(false);
 static THRESH_MS: AtomicU64 = AtomicU64::new(250);
 static WD_TID: AtomicI32 = AtomicI32::new(0);
+
+static CASE_T0: AtomicU64 = AtomicU64::new(0);
+
+fn now_ms() -> u64 {
+    std::time::SystemTime::now().duration_since(std::time::UNIX_EPOCH).unwrap().as_millis() as u64
+}
 
 fn bump() {
     PROGRESS.fetch_add(1, Ordering::Relaxed);
@@ -310,43 +316,48 @@ fn start_watchdog() {
         WD_TID.store(unsafe { libc::syscall(libc::SYS_gettid) } as i32, Ordering::Relaxed);
         let mut cur = 0;
         let mut last = 0u64;
-        let mut since = Instant::now();
-        let mut started = Instant::now();
+        // time of the last observed progress, start of the current streak of "everything asleep" samples
+        let mut moved = Instant::now();
+        let mut asleep_since: Option<Instant> = None;
         loop {
-            std::thread::sleep(Duration::from_millis(10));
+            std::thread::sleep(Duration::from_millis(20));
             let pid = ACTIVE_PID.load(Ordering::SeqCst);
+            let t0 = CASE_T0.load(Ordering::SeqCst);
+            if t0 != 0 && now_ms() > t0 + 120_000 {
+                eprintln!("c20 harness: case exceeded 120 s, aborting");
+                if pid != 0 {
+                    unsafe { libc::kill(-pid, libc::SIGKILL) };
+                }
+                std::process::abort();
+            }
             if pid == 0 {
                 cur = 0;
                 continue;
             }
             let p = PROGRESS.load(Ordering::Relaxed);
-            if pid != cur {
+            if pid != cur || p != last || DEADLOCK.load(Ordering::SeqCst) {
                 cur = pid;
                 last = p;
-                since = Instant::now();
-                started = since;
+                moved = Instant::now();
+                asleep_since = None;
                 continue;
             }
-            if started.elapsed() > Duration::from_secs(60) {
-                eprintln!("c20 harness: case exceeded 60 s, aborting");
-                unsafe { libc::kill(-pid, libc::SIGKILL) };
-                std::process::abort();
-            }
-            if p != last || DEADLOCK.load(Ordering::SeqCst) {
-                last = p;
-                since = Instant::now();
+            let thresh = Duration::from_millis(THRESH_MS.load(Ordering::Relaxed));
+            if moved.elapsed() < thresh / 2 {
                 continue;
             }
             if !(self_asleep() && group_blocked(pid)) {
-                since = Instant::now();
+                asleep_since = None;
                 continue;
             }
-            if since.elapsed() >= Duration::from_millis(THRESH_MS.load(Ordering::Relaxed)) {
+            let t = *asleep_since.get_or_insert_with(Instant::now);
+            if t.elapsed() >= thresh / 2 && moved.elapsed() >= thresh {
                 DEADLOCK.store(true, Ordering::SeqCst);
                 unsafe {
                     libc::kill(-pid, libc::SIGKILL);
                     libc::kill(pid, libc::SIGKILL);
                 }
+                asleep_since = None;
             }
         }
     });
@@ -354,7 +365,7 @@ fn start_watchdog() {
 
 // ---------------------------------------------------------------- observations
 
-#[derive(Default, Debug)]
+#[derive(Default, Debug, Clone)]
 struct Obs {
     out: Vec<u8>,
     err: Vec<u8>,
@@ -426,11 +437,17 @@ fn oracle(sc: &Scn, cmd: &str, payload: &[u8], file: &str) -> Obs {
         }
         v
     });
-    if let Some(mut s) = child.stdout.take() {
-        let _ = s.read_to_end(&mut o.out);
-    }
+    let stdout = child.stdout.take();
+    let ot = std::thread::spawn(move || {
+        let mut v = vec![];
+        if let Some(mut s) = stdout {
+            let _ = s.read_to_end(&mut v);
+        }
+        v
+    });
     // `held`: std's `wait` closes the stdin it still holds
     o.status = child.wait().ok();
+    o.out = ot.join().unwrap();
     o.w = wt.join().unwrap();
     o.err = et.join().unwrap();
     o.sunk = read_sunk(file);
@@ -681,6 +698,7 @@ async fn run_compio(sc: &Scn, cmd: &str, payload: Vec<u8>, file: &str) -> Obs {
 }
 
 thread_local! {
+    static ORACLE: std::cell::RefCell<Option<(String, Obs)>> = const { std::cell::RefCell::new(None) };
     static RTS: std::cell::RefCell<Vec<(String, Runtime)>> = const { std::cell::RefCell::new(vec![]) };
 }
 
@@ -721,8 +739,22 @@ fn exec_line(line: &str, ex: &mut Exec) -> String {
     let reads_stdin = sc.script.iter().any(|a| matches!(a, Act::Copy { .. }));
     let echoes = sc.script.iter().any(|a| matches!(a, Act::Copy { dst: 'o' | 'e', .. }));
 
-    let of = tmp_file("o");
-    let orc = oracle(&sc, &cmd, &payload, &of);
+    CASE_T0.store(now_ms(), Ordering::SeqCst);
+    // the std::process run does not depend on the driver: shared between the scenarios of a pair
+    let okey = format!(
+        "{cmd}|{}|{}|{}|{}|{}|{}|{}|{}",
+        sc.paylen, sc.payseed, sc.capin, sc.capout, sc.caperr, sc.stdin_null, sc.plan == "held", sc.route == "pidfd"
+    );
+    let cached = ORACLE.with(|m| m.borrow().as_ref().filter(|(k, _)| *k == okey).map(|(_, o)| o.clone()));
+    let orc = match cached {
+        Some(o) => o,
+        None => {
+            let of = tmp_file("o");
+            let o = oracle(&sc, &cmd, &payload, &of);
+            ORACLE.with(|m| *m.borrow_mut() = Some((okey, o.clone())));
+            o
+        }
+    };
 
     let cf = tmp_file("c");
     DEADLOCK.store(false, Ordering::SeqCst);
@@ -895,8 +927,11 @@ const SIGS: [u32; 5] = [9, 15, 1, 2, 10];
 
 /// keep the model driver's cost bounded: tiny chunks only with small payloads
 fn clamp_chunks(sc: &mut Scn) {
+    if sc.mode == "loose" {
+        return;
+    }
     let n = sc.paylen.max(total_emit(&sc.script) as usize);
-    if n > 9000 {
+    if n > 4200 {
         if sc.wch == 1 {
             sc.wch = 4096;
         }
@@ -904,7 +939,7 @@ fn clamp_chunks(sc: &mut Scn) {
             sc.rch = 4096;
         }
     }
-    if n > 70000 {
+    if n > 17000 {
         if sc.wch == 7 {
             sc.wch = 65537;
         }
@@ -973,6 +1008,15 @@ fn push(cases: &mut Vec<Case>, name: &str, mut sc: Scn) {
     cases.push(Case { name: format!("{name}-{n}"), lines: vec![sc.line()] });
 }
 
+/// the same scenario on both drivers (the oracle run is shared)
+fn push2(cases: &mut Vec<Case>, name: &str, sc: Scn) {
+    for drv in ["uring", "poll"] {
+        let mut sc = sc.clone();
+        sc.drv = drv.into();
+        push(cases, name, sc);
+    }
+}
+
 fn payload_sizes(cap: u64) -> Vec<usize> {
     let c = cap as usize;
     vec![0, 1, c - 1, c, c + 1, 2 * c + 3, 4 * c]
@@ -980,174 +1024,177 @@ fn payload_sizes(cap: u64) -> Vec<usize> {
 
 fn generate(tier: &str, rng: &mut Rng) -> Vec<Case> {
     let thorough = tier == "thorough";
+    let reps = |quick: u64, thorough_n: u64| if thorough { thorough_n } else { quick };
     let mut cases = vec![];
-    let drvs = ["uring", "poll"];
     let small = 4096u64;
     let dflt = 65536u64;
 
     // A. echo through `cat`: both directions active at once, payloads around and above the capacity
-    for drv in drvs {
-        for cap in [small, dflt] {
-            for (i, pay) in payload_sizes(cap).into_iter().enumerate() {
-                let pairs: Vec<(usize, usize)> = if thorough {
-                    CHUNKS.iter().flat_map(|w| CHUNKS.iter().map(move |r| (*w, *r))).collect()
-                } else {
-                    (0..3).map(|_| (*rng.pick(&CHUNKS), *rng.pick(&CHUNKS))).collect()
-                };
-                for (wch, rch) in pairs {
-                    if cap == dflt && pay > 70000 && !thorough && rng.chance(1, 2) {
-                        continue;
-                    }
-                    let mut sc = base(drv, cap);
-                    sc.paylen = pay;
-                    sc.payseed = rng.below(1000);
-                    sc.wch = wch;
-                    sc.rch = rch;
-                    sc.script = vec![if i % 3 == 2 { cat('e') } else { cat('o') }, Act::Exit(*rng.pick(&CODES))];
-                    sc.plan = (*rng.pick(&["conc", "conc", "drainwait"])).into();
-                    if rng.chance(1, 4) {
-                        sc.opts.push("toend".into());
-                    }
-                    push(&mut cases, "echo", sc);
+    for cap in [small, dflt] {
+        for (i, pay) in payload_sizes(cap).into_iter().enumerate() {
+            let pairs: Vec<(usize, usize)> = if thorough {
+                CHUNKS.iter().flat_map(|w| CHUNKS.iter().map(move |r| (*w, *r))).collect()
+            } else if cap == small {
+                (0..2).map(|_| (*rng.pick(&CHUNKS), *rng.pick(&CHUNKS))).collect()
+            } else {
+                vec![(*rng.pick(&CHUNKS), *rng.pick(&CHUNKS))]
+            };
+            for (wch, rch) in pairs {
+                let mut sc = base("uring", cap);
+                sc.paylen = pay;
+                sc.payseed = rng.below(1000);
+                sc.wch = wch;
+                sc.rch = rch;
+                sc.script = vec![if i % 3 == 2 { cat('e') } else { cat('o') }, Act::Exit(*rng.pick(&CODES))];
+                sc.plan = (*rng.pick(&["conc", "conc", "drainwait"])).into();
+                if rng.chance(1, 4) {
+                    sc.opts.push("toend".into());
                 }
+                push2(&mut cases, "echo", sc);
             }
         }
     }
 
+    // A'. large payloads in tiny pieces: too slow for the list-based model, judged by the monitors only
+    for _ in 0..reps(1, 6) {
+        let mut sc = base("uring", dflt);
+        sc.paylen = (dflt + rng.range(1, 2 * dflt)) as usize;
+        sc.payseed = rng.below(1000);
+        sc.wch = *rng.pick(&[1usize, 7]);
+        sc.rch = *rng.pick(&[1usize, 7]);
+        sc.script = vec![cat('o'), Act::Exit(*rng.pick(&CODES))];
+        sc.mode = "loose".into();
+        push(&mut cases, "echo-tiny", sc);
+    }
+
     // B. sink: the child reports how many bytes reached it
-    for drv in drvs {
-        for cap in [small, dflt] {
-            for pay in payload_sizes(cap) {
-                for _ in 0..(if thorough { 4 } else { 1 }) {
-                    let mut sc = base(drv, cap);
-                    sc.paylen = pay;
-                    sc.payseed = rng.below(1000);
-                    sc.wch = *rng.pick(&CHUNKS);
-                    sc.script = vec![sink(), Act::Exit(*rng.pick(&CODES))];
-                    sc.plan = (*rng.pick(&["conc", "drainwait", "waitdrain", "seq"])).into();
-                    push(&mut cases, "sink", sc);
-                }
+    for cap in [small, dflt] {
+        let mut sizes = payload_sizes(cap);
+        if !thorough {
+            sizes = vec![*rng.pick(&sizes[..3]), *rng.pick(&sizes[3..5]), *rng.pick(&sizes[5..])];
+        }
+        for pay in sizes {
+            for _ in 0..reps(1, 4) {
+                let mut sc = base("uring", cap);
+                sc.paylen = pay;
+                sc.payseed = rng.below(1000);
+                sc.wch = *rng.pick(&CHUNKS);
+                sc.script = vec![sink(), Act::Exit(*rng.pick(&CODES))];
+                sc.plan = (*rng.pick(&["conc", "drainwait", "waitdrain", "seq"])).into();
+                push2(&mut cases, "sink", sc);
             }
         }
     }
 
     // C. `head -c N`: the child stops reading; the writer ends with Ok or BrokenPipe
-    for drv in drvs {
-        for cap in [small, dflt] {
-            for _ in 0..(if thorough { 24 } else { 5 }) {
-                let mut sc = base(drv, cap);
-                let n = rng.range(0, cap * 3 / 4);
-                sc.paylen = if rng.chance(1, 2) { rng.range(0, n) as usize } else { (n + cap + rng.range(4097, 9000)) as usize };
-                sc.payseed = rng.below(1000);
-                sc.wch = *rng.pick(&CHUNKS);
-                sc.rch = *rng.pick(&CHUNKS);
-                let dst = *rng.pick(&['o', 'e', 'n']);
-                sc.script = vec![head(n, dst), Act::Exit(*rng.pick(&CODES))];
-                sc.plan = (*rng.pick(&["conc", "drainwait"])).into();
-                push(&mut cases, "head", sc);
-            }
+    for cap in [small, dflt] {
+        for k in 0..reps(2, 24) {
+            let mut sc = base("uring", cap);
+            let n = rng.range(0, cap * 3 / 4);
+            sc.paylen = if k % 2 == 0 { rng.range(0, n) as usize } else { (n + cap + rng.range(4097, 9000)) as usize };
+            sc.payseed = rng.below(1000);
+            sc.wch = *rng.pick(&CHUNKS);
+            sc.rch = *rng.pick(&CHUNKS);
+            let dst = *rng.pick(&['o', 'e', 'n']);
+            sc.script = vec![head(n, dst), Act::Exit(*rng.pick(&CODES))];
+            sc.plan = (*rng.pick(&["conc", "drainwait"])).into();
+            push2(&mut cases, "head", sc);
         }
     }
 
     // D. children that only write: stdout and stderr interleaved, below and above the capacity,
     //    every exit code class and signals
-    for drv in drvs {
-        for cap in [small, dflt] {
-            for k in 0..(if thorough { 40 } else { 10 }) {
-                let mut sc = base(drv, cap);
-                sc.stdin_null = rng.chance(1, 2);
-                let mut script = vec![];
-                let big = k % 4 == 0;
-                for _ in 0..rng.range(1, 4) {
-                    let n = match rng.below(4) {
-                        0 => rng.range(0, 64),
-                        1 => rng.range(65, cap - 1),
-                        2 => cap + rng.range(0, 2),
-                        _ => {
-                            if big {
-                                rng.range(cap, 4 * cap)
-                            } else {
-                                rng.range(0, 300)
-                            }
+    for cap in [small, dflt] {
+        for k in 0..reps(6, 40) {
+            let mut sc = base("uring", cap);
+            sc.stdin_null = rng.chance(1, 2);
+            let mut script = vec![];
+            let big = k % 3 == 0;
+            for _ in 0..rng.range(1, 4) {
+                let n = match rng.below(4) {
+                    0 => rng.range(0, 64),
+                    1 => rng.range(65, cap - 1),
+                    2 => cap + rng.range(0, 2),
+                    _ => {
+                        if big {
+                            rng.range(cap, 4 * cap)
+                        } else {
+                            rng.range(0, 300)
                         }
-                    };
-                    script.push(Act::Emit { dst: *rng.pick(&['o', 'e']), byte: *rng.pick(b"abcxyzABC019"), n });
-                }
-                script.push(if rng.chance(1, 3) { Act::Kill(*rng.pick(&SIGS)) } else { Act::Exit(*rng.pick(&CODES)) });
-                sc.script = script;
-                sc.rch = *rng.pick(&CHUNKS);
-                sc.plan = (*rng.pick(&["conc", "drainwait"])).into();
-                if rng.chance(1, 4) {
-                    sc.opts.push("toend".into());
-                }
-                if sc.plan == "conc" && rng.chance(1, 3) {
-                    sc.opts.push("wwo".into());
-                }
-                push(&mut cases, "emit", sc);
+                    }
+                };
+                script.push(Act::Emit { dst: *rng.pick(&['o', 'e']), byte: *rng.pick(b"abcxyzABC019"), n });
             }
+            script.push(if rng.chance(1, 3) { Act::Kill(*rng.pick(&SIGS)) } else { Act::Exit(*rng.pick(&CODES)) });
+            sc.script = script;
+            sc.rch = *rng.pick(&CHUNKS);
+            sc.plan = (*rng.pick(&["conc", "drainwait"])).into();
+            if rng.chance(1, 4) {
+                sc.opts.push("toend".into());
+            }
+            if sc.plan == "conc" && rng.chance(1, 3) {
+                sc.opts.push("wwo".into());
+            }
+            push2(&mut cases, "emit", sc);
         }
     }
 
     // E. wait first, read afterwards: the buffered bytes are still there (outputs below the capacity)
-    for drv in drvs {
-        for cap in [small, dflt] {
-            for _ in 0..(if thorough { 16 } else { 4 }) {
-                let mut sc = base(drv, cap);
-                sc.stdin_null = rng.chance(1, 2);
-                sc.plan = "waitdrain".into();
-                sc.script = vec![
-                    Act::Emit { dst: 'o', byte: b'q', n: rng.range(0, cap * 3 / 4) },
-                    Act::Emit { dst: 'e', byte: b'r', n: rng.range(0, cap * 3 / 4) },
-                    if rng.chance(1, 3) { Act::Kill(*rng.pick(&SIGS)) } else { Act::Exit(*rng.pick(&CODES)) },
-                ];
-                sc.rch = *rng.pick(&CHUNKS);
-                push(&mut cases, "waitdrain", sc);
-            }
+    for cap in [small, dflt] {
+        for _ in 0..reps(2, 16) {
+            let mut sc = base("uring", cap);
+            sc.stdin_null = rng.chance(1, 2);
+            sc.plan = "waitdrain".into();
+            sc.script = vec![
+                Act::Emit { dst: 'o', byte: b'q', n: rng.range(0, cap * 3 / 4) },
+                Act::Emit { dst: 'e', byte: b'r', n: rng.range(0, cap * 3 / 4) },
+                if rng.chance(1, 3) { Act::Kill(*rng.pick(&SIGS)) } else { Act::Exit(*rng.pick(&CODES)) },
+            ];
+            sc.rch = *rng.pick(&CHUNKS);
+            push2(&mut cases, "waitdrain", sc);
         }
     }
 
     // F. status and timing: the child sleeps, wait must not return before; both wait routes
-    for drv in drvs {
-        for route in ["pool", "pidfd"] {
-            let mut ends: Vec<Act> = CODES.iter().map(|c| Act::Exit(*c)).chain(SIGS.iter().map(|s| Act::Kill(*s))).collect();
-            if !thorough {
-                ends = vec![Act::Exit(*rng.pick(&CODES)), Act::Exit(*rng.pick(&CODES)), Act::Kill(*rng.pick(&SIGS)), Act::Kill(9), Act::Kill(15)];
-            }
-            for (i, end) in ends.into_iter().enumerate() {
-                let mut sc = base(drv, dflt);
-                sc.route = route.into();
-                sc.stdin_null = true;
-                sc.script = if i % 3 == 0 { vec![Act::Nop, end] } else { vec![end] };
-                sc.plan = (*rng.pick(&["conc", "drainwait"])).into();
-                push(&mut cases, "status", sc);
-            }
+    for route in ["pool", "pidfd"] {
+        let mut ends: Vec<Act> = CODES.iter().map(|c| Act::Exit(*c)).chain(SIGS.iter().map(|s| Act::Kill(*s))).collect();
+        if !thorough {
+            ends = vec![Act::Exit(*rng.pick(&CODES)), Act::Exit(255), Act::Kill(*rng.pick(&SIGS)), Act::Kill(9), Act::Kill(15)];
+        }
+        for (i, end) in ends.into_iter().enumerate() {
+            let mut sc = base("uring", dflt);
+            sc.route = route.into();
+            sc.stdin_null = true;
+            sc.script = if i % 3 == 0 { vec![Act::Nop, end] } else { vec![end] };
+            sc.plan = (*rng.pick(&["conc", "drainwait"])).into();
+            push2(&mut cases, "status", sc);
         }
     }
 
     // G. orders that cannot work (documented, by design): write everything before reading,
     //    wait before reading more than a pipe holds. Small pipes, `dd bs=4096` as the echo.
-    for drv in drvs {
-        for (k, plan) in ["seq", "waitdrain"].into_iter().enumerate() {
-            // completes: fits into the pipes
-            let mut sc = base(drv, small);
-            sc.plan = plan.into();
-            sc.paylen = rng.range(1, 2 * small * 3 / 4) as usize;
-            sc.payseed = rng.below(1000);
-            sc.script = vec![dd(4096, 'o'), Act::Exit(0)];
-            if plan == "waitdrain" {
-                sc.paylen = rng.range(1, small * 3 / 4) as usize;
-            }
-            push(&mut cases, "order-fits", sc);
-            if thorough || (k == 0) == (drv == "uring") {
-                // cannot complete: more than stdin pipe + block + stdout pipe
-                let mut sc = base(drv, small);
-                sc.plan = plan.into();
-                sc.paylen = (3 * small + rng.range(4097, 9000)) as usize;
-                sc.payseed = rng.below(1000);
-                sc.wch = *rng.pick(&[7usize, 4096, 65537]);
-                sc.script = vec![dd(4096, 'o'), Act::Exit(0)];
-                push(&mut cases, "order-deadlock", sc);
-            }
+    for (k, plan) in ["seq", "waitdrain"].into_iter().enumerate() {
+        // completes: fits into the pipes
+        let mut sc = base("uring", small);
+        sc.plan = plan.into();
+        sc.paylen = rng.range(1, 2 * small * 3 / 4) as usize;
+        sc.payseed = rng.below(1000);
+        sc.script = vec![dd(4096, 'o'), Act::Exit(0)];
+        if plan == "waitdrain" {
+            sc.paylen = rng.range(1, small * 3 / 4) as usize;
+        }
+        push2(&mut cases, "order-fits", sc);
+        // cannot complete: more than stdin pipe + block + stdout pipe
+        let mut sc = base(if k == 0 { "uring" } else { "poll" }, small);
+        sc.plan = plan.into();
+        sc.paylen = (3 * small + rng.range(4097, 9000)) as usize;
+        sc.payseed = rng.below(1000);
+        sc.wch = *rng.pick(&[7usize, 4096, 65537]);
+        sc.script = vec![dd(4096, 'o'), Act::Exit(0)];
+        if thorough {
+            push2(&mut cases, "order-deadlock", sc);
+        } else {
+            push(&mut cases, "order-deadlock", sc);
         }
     }
 
@@ -1159,43 +1206,40 @@ fn generate(tier: &str, rng: &mut Rng) -> Vec<Case> {
         sc.wch = 65537;
         sc.script = vec![dd(4096, 'o'), Act::Exit(0)];
         sc.opts.push("sure".into());
-        push(&mut cases, "f200", sc.clone());
-        sc.drv = "uring".into();
-        push(&mut cases, "f200-uring", sc);
+        push2(&mut cases, "f200", sc);
         if thorough {
             let mut sc = base("poll", dflt);
             sc.paylen = 1 << 20;
             sc.wch = 1 << 20;
             sc.script = vec![cat('o'), Act::Exit(0)];
             sc.opts.push("sure".into());
-            push(&mut cases, "f200-cat", sc);
+            push2(&mut cases, "f200-cat", sc);
         }
-        for drv in drvs {
-            for wwo in [false, true] {
-                if !thorough && wwo != (drv == "poll") {
-                    continue;
-                }
-                let mut sc = base(drv, dflt);
-                sc.plan = "held".into();
-                sc.script = vec![cat('o'), Act::Exit(0)];
-                if wwo {
-                    sc.opts.push("wwo".into());
-                }
+        for wwo in [false, true] {
+            let mut sc = base("uring", dflt);
+            sc.plan = "held".into();
+            sc.script = vec![cat('o'), Act::Exit(0)];
+            if wwo {
+                sc.opts.push("wwo".into());
+            }
+            if thorough {
+                push2(&mut cases, "f201", sc);
+            } else {
+                sc.drv = (if wwo { "poll" } else { "uring" }).into();
                 push(&mut cases, "f201", sc);
             }
-            // the same call is fine when the child does not wait for end of file
-            let mut sc = base(drv, dflt);
-            sc.plan = "held".into();
-            sc.script = vec![Act::Emit { dst: 'o', byte: b'k', n: 10 }, Act::Exit(4)];
-            push(&mut cases, "held-ok", sc);
         }
+        // the same call is fine when the child does not wait for end of file
+        let mut sc = base("uring", dflt);
+        sc.plan = "held".into();
+        sc.script = vec![Act::Emit { dst: 'o', byte: b'k', n: 10 }, Act::Exit(4)];
+        push2(&mut cases, "held-ok", sc);
     }
 
     // I. random mixtures
-    for _ in 0..(if thorough { 400 } else { 40 }) {
-        let drv = *rng.pick(&drvs);
+    for _ in 0..reps(12, 300) {
         let cap = *rng.pick(&[small, small, 8192, dflt]);
-        let mut sc = base(drv, cap);
+        let mut sc = base("uring", cap);
         sc.capout = *rng.pick(&[cap, small]);
         sc.caperr = *rng.pick(&[cap, small]);
         sc.wch = *rng.pick(&CHUNKS);
@@ -1228,7 +1272,8 @@ fn generate(tier: &str, rng: &mut Rng) -> Vec<Case> {
         sc.script = script;
         let capmin = sc.capin.min(sc.capout).min(sc.caperr);
         sc.paylen = if all {
-            rng.range(0, if rng.chance(1, 3) { 4 * capmin } else { capmin }) as usize
+            let hi = if rng.chance(1, 3) { 4 * capmin } else { capmin };
+            rng.range(0, hi) as usize
         } else if rng.chance(1, 2) {
             rng.range(0, consumed) as usize
         } else {
@@ -1236,13 +1281,13 @@ fn generate(tier: &str, rng: &mut Rng) -> Vec<Case> {
         };
         // `dd bs=1` moves one byte per system call: keep it short
         if sc.script.iter().any(|a| matches!(a, Act::Copy { blk: 1, .. })) {
-            sc.paylen = sc.paylen.min(3000);
+            sc.paylen = sc.paylen.min(600);
         }
         sc.plan = (*rng.pick(&["conc", "conc", "drainwait"])).into();
         if rng.chance(1, 4) {
             sc.opts.push("toend".into());
         }
-        push(&mut cases, "mix", sc);
+        push2(&mut cases, "mix", sc);
     }
 
     cases
